@@ -18,6 +18,8 @@ type fnInfo struct {
 	checked   bool
 	name      string
 	harness   string // non-empty for harness primitives (vU32 ...)
+
+	mergeChecked, mergeOK bool
 }
 
 var fnInfos sync.Map // *ssa.Function -> *fnInfo
@@ -134,8 +136,31 @@ func (r *Run) posOf(in ssa.Instruction) string {
 	return r.E.Prog.Fset.Position(p).String()
 }
 
-// callFn calls an SSA function (or its intrinsic) with the given arguments.
+// callFn calls an SSA function (or its intrinsic), merging pure callees where possible.
 func (r *Run) callFn(fn *ssa.Function, args []Value, env []Value, caller *frame) Value {
+	if !r.initPhase && !r.E.Cfg.NoMerge && r.nthreads <= 1 && hasSymbolic(args) && r.E.mergeable(fn, 0) {
+		if v, ok := r.callMerged(fn, args, env, caller); ok {
+			return v
+		}
+	}
+	return r.callFnPlain(fn, args, env, caller)
+}
+
+func hasSymbolic(args []Value) bool {
+	for _, a := range args {
+		switch a := a.(type) {
+		case *smt.Term:
+			if !a.IsConst() {
+				return true
+			}
+		case *Agg, Ptr, Slice:
+			return true // may reach symbolic data
+		}
+	}
+	return false
+}
+
+func (r *Run) callFnPlain(fn *ssa.Function, args []Value, env []Value, caller *frame) Value {
 	fi := r.E.info(fn)
 	if r.initPhase && fn.Synthetic == "package initializer" && caller != nil {
 		// initialisers of imported packages: isolated, so that one failing package does not stop the rest
@@ -173,6 +198,7 @@ func (r *Run) callFn(fn *ssa.Function, args []Value, env []Value, caller *frame)
 	if r.depth > 400 {
 		panic(abort{abBudget, "call depth exceeded in " + fi.name})
 	}
+	r.lastFn = fi.name
 	fr := &frame{r: r, fn: fn, info: fi, caller: caller, env: make([]Value, fi.n), depth: r.depth}
 	copy(fr.env, args)
 	copy(fr.env[len(fn.Params):], env)
@@ -374,7 +400,20 @@ func (fr *frame) prepareCall(call *ssa.CallCommon) (Value, []Value) {
 		ifc, ok := recv.(Iface)
 		if !ok {
 			if p, ok := recv.(Poison); ok {
-				panic(unsupported("method call on unmodelled value: " + p.Why))
+				return &Closure{Native: func(r *Run, as []Value) Value {
+					n := call.Signature().Results().Len()
+					if n == 0 {
+						return nil
+					}
+					if n == 1 {
+						return p
+					}
+					t := make(Tuple, n)
+					for i := range t {
+						t[i] = p
+					}
+					return t
+				}}, nil
 			}
 			panic(unsupported(fmt.Sprintf("invoke on %T", recv)))
 		}
